@@ -67,8 +67,10 @@ def gstep (s : Graph) : Op → Graph × Out
   | .setclass slot n => gwithSlot s slot fun g =>
       if g.access ≠ accW then (g, .fail) else ({ g with cls := some (cstr n) }, .ok)
   | .addtagref slot t r => gwithSlot s slot fun g =>
+      -- since 6287f87: a vgroup that is not attached for writing is refused (as Vinsert always did)
+      if g.access ≠ accW then (g, .fail)
       -- a Vgroup holds at most MAX_REF = 65535 members
-      if g.members.length = MAX_REF then (g, .fail)
+      else if g.members.length = MAX_REF then (g, .fail)
       else ({ g with members := g.members ++ [(t % 65536, r % 65536)] }, .int (g.members.length + 1))
   | .insertvg slot slot2 =>
     match alook slot2 s.slots with
@@ -86,7 +88,8 @@ def gstep (s : Graph) : Op → Graph × Out
       else if g.members.length = MAX_REF then (g, .fail)
       else ({ g with members := g.members ++ [(DFTAG_VH, vsref % 65536)] }, .int g.members.length)
   | .deltagref slot t r => gwithSlot s slot fun g =>
-      if (t % 65536, r % 65536) ∈ g.members then ({ g with members := g.members.erase (t % 65536, r % 65536) }, .ok)
+      if g.access ≠ accW then (g, .fail)      -- since 6287f87
+      else if (t % 65536, r % 65536) ∈ g.members then ({ g with members := g.members.erase (t % 65536, r % 65536) }, .ok)
       else (g, .fail)
   | .setattr slot vsref =>
     match alook slot s.slots with
